@@ -405,6 +405,10 @@ pub fn phase(args: &Args, master: &Path) -> Report {
          tiny_std::fs::create_dir_all in a fresh directory, and is judged through std::fs (symlink_metadata of every prefix, recursive listing before/after).",
         if args.thorough { 5 } else { 4 }
     );
+    let r2 = crate::mkdots::run_all(args, master);
+    r.merge(r2);
+    r.rule.push_str(" ");
+    r.rule.push_str(&crate::mkdots::rule(args.thorough));
     r.bound("cases", n);
     r.bound("max_components", if args.thorough { 5 } else { 4 });
     r.bound("long_totals", "510 511 512 513 1024 4094 4095 4096");
